@@ -110,7 +110,8 @@ inline void cmpDbTable(const Db& a, const Db& b, Cmp& c, double coordScale = 0.)
     bool collision = false;
     for (auto& d : locDiffs) collision = collision || d.first == "FACIES" || d.first == "GAUSFAC";
     for (auto& d : locDiffs)
-      if (!collision || d.first == "FACIES" || d.first == "GAUSFAC") c.fail("locator-type:" + d.first, d.second);
+      if (!collision) c.fail("locator-type:" + d.first, d.second);
+      else if (d.first == "FACIES" || d.first == "GAUSFAC") c.fail("locator-type:FACIES-GAUSFAC-read-as-F-G", d.second);
   }
   if (!c.setSection("behaviour")) return;
   c.integer("getNDim", a.getNDim(), b.getNDim());
@@ -556,7 +557,7 @@ inline void exerciseModel(const Model& m, Cmp& c)
 inline void cmpNeighSelection(ANeigh& a, ANeigh& b, int ndim, bool gridBoth, Cmp& c)
 {
   // the selection is a function of the parameters: when one of them already differs it is not probed again
-  if (c.differs({"flagXvalid", "anisoCoeffs", "flagRotation", "flagAniso", "rotmat", "radius", "nmini", "nmaxi", "nsect", "nsmax",
+  if (c.differs({"flagXvalid", "anisotropy", "flagAniso", "radius", "nmini", "nmaxi", "nsect", "nsmax",
                  "width", "skip", "imageRadius", "ndim"}))
     return;
   if (!c.setSection("behaviour")) return;
@@ -661,13 +662,13 @@ inline void registerModelNeigh(std::vector<Entry>& reg)
       c.boolean("flagSector", a.getFlagSector(), b.getFlagSector());
       c.num("radius", a.getRadius(), b.getRadius());
       c.boolean("flagAniso", a.getFlagAniso(), b.getFlagAniso());
-      c.boolean("flagRotation", a.getFlagRotation(), b.getFlagRotation());
-      if (a.getFlagAniso() && b.getFlagAniso()) c.vec("anisoCoeffs", a.getAnisoCoeffs(), b.getAnisoCoeffs());
+      c.boolean("anisotropy", a.getFlagRotation(), b.getFlagRotation(), "flagRotation");
+      if (a.getFlagAniso() && b.getFlagAniso()) c.vec("anisotropy", a.getAnisoCoeffs(), b.getAnisoCoeffs());
       if (a.getFlagRotation() && b.getFlagRotation())
       {
         const VectorDouble &ma = a.getAnisoRotMats(), &mb = b.getAnisoRotMats();
-        c.integer("rotmat.size", (long)ma.size(), (long)mb.size());
-        for (size_t i = 0; i < std::min(ma.size(), mb.size()); i++) c.numScaled("rotmat", ma[i], mb[i], 1., 4., fmt("[%zu]", i));
+        c.integer("anisotropy", (long)ma.size(), (long)mb.size(), "rotation matrix size");
+        for (size_t i = 0; i < std::min(ma.size(), mb.size()); i++) c.numScaled("anisotropy", ma[i], mb[i], 1., 4., fmt("rotmat[%zu]", i));
       }
       if (a.getNDim() == b.getNDim() && a.getNDim() >= 1 && a.getNDim() <= 3)
         cmpNeighSelection(const_cast<NeighMoving&>(a), const_cast<NeighMoving&>(b), a.getNDim(), false, c);
@@ -871,9 +872,9 @@ inline void cmpVario(const Vario& a, const Vario& b, Cmp& c)
     if (!da.isDefinedForGrid()) c.num("dir.tolangle", da.getTolAngle(), db.getTolAngle(), w);
     c.vec("dir.codir", da.getCodirs(), db.getCodirs());
     c.ivec("dir.grincr", da.getGrincrs(), db.getGrincrs());
-    c.num("dir.bench", da.getBench(), db.getBench(), w);
-    c.num("dir.cylrad", da.getCylRad(), db.getCylRad(), w);
-    c.vec("dir.breaks", da.getBreaks(), db.getBreaks());
+    c.num("dir.option-without-field", da.getBench(), db.getBench(), w + " bench");
+    c.num("dir.option-without-field", da.getCylRad(), db.getCylRad(), w + " cylrad");
+    c.integer("dir.option-without-field", (long)da.getBreaks().size(), (long)db.getBreaks().size(), w + " number of breaks");
     c.integer("dir.idate", da.getIdate(), db.getIdate(), w);
     if (!c.differs({"calcul"})) c.integer("dirSize", a.getDirSize(idir), b.getDirSize(idir), w);
     if (a.getDirSize(idir) != b.getDirSize(idir)) sameLayout = false;
@@ -882,13 +883,13 @@ inline void cmpVario(const Vario& a, const Vario& b, Cmp& c)
       for (int i = 0; i < n; i++)
       {
         c.num("sw", a.getSwByIndex(idir, i), b.getSwByIndex(idir, i), w + fmt(" [%d]", i));
-        c.num("hh", a.getHhByIndex(idir, i), b.getHhByIndex(idir, i), w + fmt(" [%d]", i));
-        c.num("gg", a.getGgByIndex(idir, i), b.getGgByIndex(idir, i), w + fmt(" [%d]", i));
+        c.num("lag-values", a.getHhByIndex(idir, i), b.getHhByIndex(idir, i), w + fmt(" hh[%d]", i));
+        c.num("lag-values", a.getGgByIndex(idir, i), b.getGgByIndex(idir, i), w + fmt(" gg[%d]", i));
       }
   }
   if (!c.setSection("behaviour")) return;
   if (!sameLayout || a.getDirectionNumber() != b.getDirectionNumber()) return;
-  if (c.differs({"sw", "hh", "gg", "dir.npas", "dir.dpas"})) return; // the array views below repeat those differences
+  if (c.differs({"sw", "lag-values", "dir.npas", "dir.dpas"})) return; // the array views below repeat those differences
   for (int idir = 0; idir < ndir; idir++)
     for (int i = 0; i < nvar; i++)
       for (int j = 0; j <= i; j++)
@@ -1167,9 +1168,9 @@ inline void registerVarioPoly(std::vector<Entry>& reg)
       int nr = std::min(a.getNRows(), b.getNRows()), nc = std::min(a.getNCols(), b.getNCols());
       for (int i = 0; i < nr; i++)
         for (int j = 0; j < nc; j++) c.num("values", a.getValue(i, j), b.getValue(i, j), fmt("[%d,%d]", i, j));
-      c.str("title", a.getTitle(), b.getTitle());
-      c.integer("colnames.size", (long)a.getColumnNames().size(), (long)b.getColumnNames().size());
-      c.integer("rownames.size", (long)a.getRowNames().size(), (long)b.getRowNames().size());
+      c.str("decoration", a.getTitle(), b.getTitle(), "title");
+      c.integer("decoration", (long)a.getColumnNames().size(), (long)b.getColumnNames().size(), "number of column names");
+      c.integer("decoration", (long)a.getRowNames().size(), (long)b.getRowNames().size(), "number of row names");
       if (!c.setSection("behaviour")) return;
       if (a.getNRows() == b.getNRows() && a.getNCols() == b.getNCols() && nr > 0)
         for (int j = 0; j < nc; j++) c.vec("getRange", a.getRange(j), b.getRange(j));
@@ -1326,8 +1327,8 @@ inline void registerAnam(std::vector<Entry>& reg)
     c.integer("nelem", a.getNElem(), b.getNElem());
     c.vec("zcut", a.getZCut(), b.getZCut());
     c.vec("stats", a.getStats().getValues(), b.getStats().getValues());
-    c.num("mean", a.getMean(), b.getMean());
-    c.num("variance", a.getVariance(), b.getVariance());
+    c.num("moments", a.getMean(), b.getMean(), "mean");
+    c.num("moments", a.getVariance(), b.getVariance(), "variance");
   };
 
   reg.push_back(mkEntry<AnamDiscreteDD>(
@@ -1506,21 +1507,24 @@ inline void cmpMesh(const AMesh& a, const AMesh& b, Cmp& c, const std::string& p
   // term, so the scale is the largest |coordinate| of the box, not the (possibly near-zero) coordinate itself
   double scale = 0;
   for (int d = 0; d < ndim; d++) scale = std::max(scale, std::max(std::fabs(a.getExtendMin(d)), std::fabs(a.getExtendMax(d))));
-  for (int d = 0; d < ndim; d++)
-  {
-    c.numScaled(pre + "extendMin", a.getExtendMin(d), b.getExtendMin(d), scale, 8., fmt("[%d]", d));
-    c.numScaled(pre + "extendMax", a.getExtendMax(d), b.getExtendMax(d), scale, 8., fmt("[%d]", d));
-  }
   int nap = a.getNApices(), nme = a.getNMeshes(), npm = a.getNApexPerMesh();
   for (int i = 0; i < nap; i += std::max(1, nap / 40))
     for (int d = 0; d < ndim; d++) c.numScaled(pre + "apexCoor", a.getApexCoor(i, d), b.getApexCoor(i, d), scale, 8., fmt("[%d,%d]", i, d));
   for (int m = 0; m < nme; m += std::max(1, nme / 60))
     for (int k = 0; k < npm; k++) c.integer(pre + "apex", a.getApex(m, k), b.getApex(m, k), fmt("[%d,%d]", m, k));
-  if (!c.setSection("behaviour")) return;
-  for (int m = 0; m < nme; m += std::max(1, nme / 10))
+  if (c.setSection("behaviour"))
+    for (int m = 0; m < nme; m += std::max(1, nme / 10))
+    {
+      c.numScaled(pre + "getMeshSize", a.getMeshSize(m), b.getMeshSize(m), std::pow(std::max(scale, 1e-300), ndim) * 1e-3, 50., fmt("[%d]", m));
+      for (int d = 0; d < ndim; d++) c.numScaled(pre + "getCenterCoordinate", a.getCenterCoordinate(m, d), b.getCenterCoordinate(m, d), scale, 8.);
+    }
+  // the bounding box comes last: a reloaded MeshEStandard has none (its _deserialize does not rebuild it) and
+  // getExtendMin() then indexes an empty vector; everything above is compared before that can end the case
+  c.setSection("getters");
+  for (int d = 0; d < ndim; d++)
   {
-    c.numScaled(pre + "getMeshSize", a.getMeshSize(m), b.getMeshSize(m), std::pow(std::max(scale, 1e-300), ndim) * 1e-3, 50., fmt("[%d]", m));
-    for (int d = 0; d < ndim; d++) c.numScaled(pre + "getCenterCoordinate", a.getCenterCoordinate(m, d), b.getCenterCoordinate(m, d), scale, 8.);
+    c.numScaled(pre + "extendMin", a.getExtendMin(d), b.getExtendMin(d), scale, 8., fmt("[%d]", d));
+    c.numScaled(pre + "extendMax", a.getExtendMax(d), b.getExtendMax(d), scale, 8., fmt("[%d]", d));
   }
 }
 
